@@ -175,53 +175,51 @@ def check_lookup_model(ctx):
     top = body[0]
     if not isinstance(top, ast.If):
         raise AnalysisError("sg.__init__: first statement is not the sgno/sgname dispatch")
-    # arm 1: sgno != None -> klass_name = "".join('Sg%i' % sgno)  (or 'Sg%i' % sgno)
-    def is_not_none(t, name):
-        return (isinstance(t, ast.Compare) and isinstance(t.left, ast.Name) and t.left.id == name
-                and len(t.ops) == 1 and isinstance(t.ops[0], (ast.NotEq, ast.IsNot))
-                and isinstance(t.comparators[0], ast.Constant) and t.comparators[0].value is None)
-    okno = is_not_none(top.test, "sgno") and len(top.body) == 1 and isinstance(top.body[0], ast.Assign)
-    if okno:
-        v = top.body[0].value
-        if isinstance(v, ast.Call) and isinstance(v.func, ast.Attribute) and v.func.attr == "join" \
-                and isinstance(v.func.value, ast.Constant) and v.func.value.value == "":
-            v = v.args[0]
-        okno = (isinstance(v, ast.BinOp) and isinstance(v.op, ast.Mod) and isinstance(v.left, ast.Constant)
-                and v.left.value in ("Sg%i", "Sg%d", "Sg%s") and isinstance(v.right, ast.Name) and v.right.id == "sgno"
-                and isinstance(top.body[0].targets[0], ast.Name) and top.body[0].targets[0].id == "klass_name")
-    ctx.check(okno, "C04:lookup:by-number", "by-number look-up is not klass_name = 'Sg%i' % sgno", where)
-    # arm 2: sgname
-    okname = False
-    okr = False
-    if len(top.orelse) == 1 and isinstance(top.orelse[0], ast.If) and is_not_none(top.orelse[0].test, "sgname"):
-        b = top.orelse[0].body
-        if b and isinstance(b[0], ast.Assign) and isinstance(b[0].value, ast.Subscript) \
-                and isinstance(b[0].value.value, ast.Name) and b[0].value.value.id == "sgdic" \
-                and _norm_expr(b[0].value.slice) and b[0].targets[0].id == "klass_name":
-            okname = True
-        if len(b) == 2 and isinstance(b[1], ast.If) and not b[1].orelse:
-            t = b[1].test
-            if isinstance(t, ast.BoolOp) and isinstance(t.op, ast.And) and len(t.values) == 2:
-                idx = []
-                for c in t.values:
-                    if (isinstance(c, ast.Compare) and isinstance(c.left, ast.Subscript) and _norm_expr(c.left.value)
-                            and isinstance(c.ops[0], ast.Eq) and isinstance(c.comparators[0], ast.Constant)
-                            and c.comparators[0].value == "r"):
-                        try:
-                            idx.append(tables.literal(c.left.slice))
-                        except AnalysisError:
-                            pass
-                st = b[1].body
-                okr = (sorted(idx) == [-1, 0] and len(st) == 1 and isinstance(st[0], ast.Assign)
-                       and isinstance(st[0].targets[0], ast.Name) and st[0].targets[0].id == "cell_choice"
-                       and isinstance(st[0].value, ast.Constant) and st[0].value.value == "rhombohedral")
-        elif len(b) != 1:
-            okr = False
-    ctx.check(okname, "C04:lookup:by-name",
-              "by-name look-up is not klass_name = sgdic[sub('\\s+','',sgname).lower()]", where)
-    ctx.check(okr, "C04:lookup:r-suffix",
-              "cell_choice is not set to 'rhombohedral' exactly when the normalised name starts and ends with 'r'",
-              where)
+    # The dispatch statement is evaluated (constant folding on concrete names / numbers, E3 string fragment) for
+    # every key of the dictionary in four spellings and for every number: semantic, so a tidy-up that keeps the
+    # behaviour passes and one that changes it for some spelling fails.
+    from xfabsa.symeval import Evaluator
+    dic = {k: v for k, v, _ln in tables.extract_sgdic()}
+
+    def dispatch(sgno, sgname, cell_choice):
+        ev = Evaluator(m, inline=set())
+        env = {"self": None, "sgno": sgno, "sgname": sgname, "cell_choice": cell_choice, "sgdic": dic}
+        ev.exec_stmt(top, env)
+        return env.get("klass_name"), env.get("cell_choice")
+    from xfabsa.poly import Rat
+    badno = []
+    for n_ in range(1, 231):
+        got = dispatch(Rat.const(n_), None, "standard")
+        if got != ("Sg%d" % n_, "standard"):
+            badno.append((n_, got))
+        got = dispatch(Rat.const(n_), None, "rhombohedral")
+        if got != ("Sg%d" % n_, "rhombohedral"):
+            badno.append((n_, got))
+    okno = ctx.check(not badno, "C04:lookup:by-number", "by-number look-up does not give ('Sg<n>', the caller's cell_choice): %s" % badno[:2], where)
+    badname, badr = [], []
+    nvar = 0
+    for key, cname in dic.items():
+        spaced = " ".join(key)
+        for spelling in (key, key.upper(), key.capitalize(), spaced, " " + key[:1].upper() + key[1:] + " "):
+            nvar += 1
+            try:
+                got = dispatch(None, spelling, "standard")
+            except AnalysisError as e:
+                if "not in the modelled dictionary" in str(e):
+                    got = ("<KeyError>", None)
+                else:
+                    raise
+            want_cc = "rhombohedral" if (key[0] == "r" and key[-1] == "r") else "standard"
+            if got[0] != cname:
+                badname.append((spelling, got[0]))
+            elif got[1] != want_cc:
+                badr.append((spelling, got[1]))
+    ctx.extra["name_spellings_evaluated"] = nvar
+    okname = ctx.check(not badname, "C04:lookup:by-name",
+                       "by-name look-up does not resolve white-space / case variants to sgdic[normalised name]: %s" % badname[:3], where,
+                       sample={"spellings_evaluated": nvar, "example": ["R -3 C R", "r-3cr", "R-3cr"]})
+    okr = ctx.check(not badr, "C04:lookup:r-suffix",
+                    "cell_choice is not 'rhombohedral' exactly when the normalised name starts and ends with 'r': %s" % badr[:3], where)
     # the class is taken from xfab.sglib by name and instantiated with cell_choice=cell_choice
     inst = [n for n in ast.walk(init) if isinstance(n, ast.Call) and isinstance(n.func, ast.Name) and n.func.id == "klass"]
     okinst = (len(inst) == 1 and not inst[0].args and len(inst[0].keywords) == 1
